@@ -144,6 +144,45 @@ theorem C07_sequential (n m cap : Nat) (ops : List Op) (hc : completeOps ops = t
 
 example : completeOps [.accept 0, .hsAuth 0 1 true, .hsFin 0, .kick 1 1, .hsChal 0 true, .hsFin 0, .sweep] = true := by decide
 
+/-! ## Cloud-control fault points -/
+
+/-- **All histories, every placement of cloud-control faults.**  A history with fault points marks,
+for each operation, whether the cloud-control store fails while it runs (`DisconnectClientIfMatch`
+in `RemoveControlConnection` / the stale sweep, `EnsureClientOnline` in the heartbeat return an
+error).  For every such history the observation satisfies the same predicate: in particular after
+`CloseConnection` under a fault no lookup returns the connection, its transport is closed and the
+counters are back — the registry entry is removed whatever the cloud control answers. -/
+theorem C07_main_cloud_faults (n m cap : Nat) (fops : List FOp) :
+    holdsF n m cap fops false (obsOf (runF .repaired (init n cap) fops) m) = true :=
+  C07_main n m cap (fops.map Prod.fst)
+
+/-- … strict form, for histories of complete handshakes. -/
+theorem C07_sequential_cloud_faults (n m cap : Nat) (fops : List FOp)
+    (hc : completeOps (fops.map Prod.fst) = true) :
+    holdsF n m cap fops true (obsOf (runF .repaired (init n cap) fops) m) = true :=
+  C07_sequential n m cap (fops.map Prod.fst) hc
+
+/-- The observation does not depend on where the faults are. -/
+theorem C07_fault_independent (n cap m : Nat) (fops : List FOp) :
+    obsOf (runF .repaired (init n cap) fops) m
+      = obsOf (runF .repaired (init n cap) (fops.map (fun p => (p.1, false)))) m := by
+  simp [runF, List.map_map, Function.comp_def]
+
+/-- non-vacuity: a login, then `CloseConnection` while the cloud-control store fails — the lookup
+answers nothing, the transport is closed, every counter is 0 … -/
+example :
+    obsOf (runF .repaired (init 1 0)
+      [(.accept 0, false), (.hsAuth 0 1 true, false), (.hsFin 0, false), (.close 0, true)]) 1
+    = { cl := [none], cn := [⟨none, false, false, true⟩], la := [],
+        count := 0, total := 0, control := 0, tunnel := 0, active := 0 } := by decide
+
+/-- … and the predicate rejects the observation in which the closed connection is still listed
+(what a `RemoveControlConnection` that returns early on the cloud-control error produces). -/
+example :
+    holdsF 1 1 0 [(.accept 0, false), (.hsAuth 0 1 true, false), (.hsFin 0, false), (.close 0, true)] true
+      { cl := [some ⟨0, 1, true, true⟩], cn := [⟨some (1, true), false, false, true⟩], la := [0],
+        count := 1, total := 0, control := 1, tunnel := 0, active := 1 } = false := by decide
+
 /-! ## Non-vacuity and recorded findings -/
 
 /-- a non-trivial history: duplicate login evicts the older connection, re-login under another id,
